@@ -144,6 +144,26 @@ func condMentionsNotNil(info *types.Info, cond ast.Expr, v types.Object) bool {
 					good = false
 					return true
 				}
+				// `return true` lets the caller go on; `return false` must stand under a test of the error
+				if id, ok := unparen(r.Results[0]).(*ast.Ident); ok && (id.Name == "true" || id.Name == "false") {
+					if id.Name == "false" {
+						under := false
+						ast.Inspect(lit.Body, func(q ast.Node) bool {
+							if is, ok := q.(*ast.IfStmt); ok && is.Body.Pos() <= r.Pos() && r.End() <= is.Body.End() {
+								if be, ok := unparen(is.Cond).(*ast.BinaryExpr); ok && be.Op == token.NEQ {
+									if (isNilIdent(be.Y) && stored[identObj(info, be.X)]) || (isNilIdent(be.X) && stored[identObj(info, be.Y)]) {
+										under = true
+									}
+								}
+							}
+							return true
+						})
+						if !under {
+							good = false
+						}
+					}
+					return true
+				}
 				be, ok := unparen(r.Results[0]).(*ast.BinaryExpr)
 				if !ok || be.Op != token.EQL {
 					good = false
